@@ -616,7 +616,7 @@ impl CodegenContext {
                                 .allowed("fill")
                                 .allowed("filename")
                                 .extract(id.span, &kvps)?;
-                            let name = Identifier::new(extractor.get_string(self, "name")?);
+                            let name = extractor.get_identifier(self, "name")?;
 
                             let opts = BankOptions {
                                 name: name.clone(),
@@ -649,7 +649,7 @@ impl CodegenContext {
                                 .extract(id.span, &kvps)?;
 
                             let mut opts = SegmentOptions::default();
-                            let name = Identifier::new(extractor.get_string(self, "name")?);
+                            let name = extractor.get_identifier(self, "name")?;
                             match extractor.try_get_i64(self, "start") {
                                 Ok(Some(val)) => {
                                     log::trace!(
@@ -678,8 +678,7 @@ impl CodegenContext {
                             if let Some(write) = extractor.try_get_i64(self, "write")? {
                                 opts.write = write != 0;
                             }
-                            opts.bank =
-                                extractor.try_get_string(self, "bank")?.map(Identifier::new);
+                            opts.bank = extractor.try_get_identifier(self, "bank")?;
                             match extractor.try_get_i64(self, "pc")? {
                                 Some(target) => opts.target_address = target.into(),
                                 None => opts.target_address = opts.initial_pc,
@@ -1099,10 +1098,17 @@ impl CodegenContext {
                 }
             }
             Token::Segment { id, block, .. } => {
-                if let Some(segment_id) = self
-                    .evaluate_expression_as_string(id, true)?
-                    .map(Identifier::new)
-                {
+                let segment_id = self.evaluate_expression_as_string(id, true)?;
+                if matches!(&segment_id, Some(segment_id) if segment_id.contains('.')) {
+                    return Err(Diagnostic::error()
+                        .with_message(format!(
+                            "'{}' is not a valid segment name",
+                            segment_id.unwrap()
+                        ))
+                        .with_labels(vec![id.span.to_label()])
+                        .into());
+                }
+                if let Some(segment_id) = segment_id.map(Identifier::new) {
                     if !self.segments.contains_key(&segment_id) {
                         return Err(Diagnostic::error()
                             .with_message(format!("unknown identifier: {}", id.data))
